@@ -263,3 +263,114 @@ Proof.
     apply IH. intros x Hx. apply Hk. right. exact Hx. }
   specialize (G values [] (fun k => keys_have k values)). destruct (ee_go values (build_graph values) values []) as [[r|]|]; try congruence. exists r. reflexivity.
 Qed.
+
+(* ---------- programs of instructions and EQU definitions ---------- *)
+Definition item_plain (it : item) : Prop := match it with IInstr _ | IEqu _ _ => True | _ => False end.
+Fixpoint instrs (its : list item) : list Prog.iline :=
+  match its with [] => [] | IInstr l :: t => l :: instrs t | _ :: t => instrs t end.
+Fixpoint equs (its : list item) : env :=
+  match its with [] => [] | IEqu n e :: t => (n, e) :: equs t | _ :: t => equs t end.
+
+Lemma collect_plain : forall its a ev ls ins, Forall item_plain its ->
+  collect its a ev ls ins = (ev ++ equs its, ls ++ lab_pairs a (instrs its), ins ++ instrs its, a + Z.of_nat (length (instrs its))).
+Proof.
+  induction its as [|it t IH]; intros a ev ls ins H; cbn [collect instrs equs lab_pairs length].
+  - rewrite !app_nil_r, Z.add_0_r. reflexivity.
+  - inversion H as [|x y Hx Hy]; subst. destruct it as [l|n e| |]; try (destruct Hx; fail); cbn [collect instrs equs lab_pairs length].
+    + rewrite (IH _ _ _ _ Hy). rewrite <- !app_assoc. cbn [app]. f_equal. lia.
+    + rewrite (IH _ _ _ _ Hy). rewrite <- !app_assoc. reflexivity.
+Qed.
+Lemma assertions_plain cf ev ls : forall its, Forall item_plain its -> assertions cf ev ls its = MOk [] 0.
+Proof.
+  induction its as [|it t IH]; intros H; [reflexivity|]. inversion H as [|x y Hx Hy]; subst.
+  destruct it; try (destruct Hx; fail); cbn [assertions]; apply IH; exact Hy.
+Qed.
+
+Section EquDocs.
+Variable spell : N -> text.
+
+(* the compiler's table of definitions: the predefined constants, then the EQU lines in order *)
+Definition equ_entries (ev : env) : symtab := map (fun ne => (spell (fst ne), etoks spell (snd ne))) ev.
+Definition raw_table (cfg : config) (ev : env) : symtab := load_constants cfg ++ equ_entries ev.
+
+Lemma sym_set_fresh k v : forall m, ~ In k (map fst m) -> sym_set k v m = m ++ [(k, v)].
+Proof.
+  induction m as [|[k' v'] t IH]; intros H; [reflexivity|]. cbn [sym_set map fst In] in *.
+  rewrite text_eqb_neq by (intros E; apply H; left; symmetry; exact E). cbn [app]. f_equal. apply IH. intros X. apply H. right. exact X.
+Qed.
+Lemma sym_find_app k a b : sym_find k (a ++ b) = match sym_find k a with Some v => Some v | None => sym_find k b end.
+Proof. induction a as [|[k' v'] t IH]; [reflexivity|]. cbn [app sym_find]. destruct (text_eqb k k'); [reflexivity|exact IH]. Qed.
+Lemma sym_find_entries id ev : (forall a b, In a (id :: map fst ev) -> In b (id :: map fst ev) -> spell a = spell b -> a = b) ->
+  sym_find (spell id) (equ_entries ev) = match env_find id ev with Some d => Some (etoks spell d) | None => None end.
+Proof.
+  induction ev as [|[n e] t IH]; intros Hinj; [reflexivity|]. cbn [equ_entries map sym_find env_find fst snd].
+  destruct (N.eqb_spec n id) as [->|Hne].
+  - rewrite text_eqb_refl. reflexivity.
+  - rewrite text_eqb_neq.
+    + apply IH. intros a b Ha Hb. apply Hinj.
+      * destruct Ha as [Ha|Ha]; [left; exact Ha|right; right; exact Ha].
+      * destruct Hb as [Hb|Hb]; [left; exact Hb|right; right; exact Hb].
+    + intros E. apply Hne. symmetry. apply Hinj; [left; reflexivity|right; left; reflexivity|exact E].
+Qed.
+
+(* documents: as in C03Compile, with EQU lines *)
+Inductive renders_doc2 : option nexpr -> list item -> list (lelem * nat) -> Prop :=
+| R2nil : renders_doc2 None [] []
+| R2instr org l its t k es : renders_line spell l t -> renders_doc2 org its es -> renders_doc2 org (IInstr l :: its) ((LInstr t, k) :: es)
+| R2comment org c k its es : comment_plain c -> renders_doc2 org its es -> renders_doc2 org its ((LComment c, k) :: es)
+| R2org e kw cmt k its es : dir_kw_ok kw "org" -> Forall nn_ntok (nprint e) -> renders_doc2 None its es ->
+    renders_doc2 (Some e) its ((LDir kw (etoks spell e) cmt, k) :: es)
+| R2equ org n e labs kw cmt k its es :
+    lnames labs = [spell n] -> dir_kw_ok kw "equ" -> Forall nn_ntok (nprint e) -> renders_doc2 org its es ->
+    renders_doc2 org (IEqu n e :: its) ((LEqu labs kw (etoks spell e) cmt, k) :: es).
+
+Lemma r2_plain org its es : renders_doc2 org its es -> Forall item_plain its.
+Proof. induction 1; try assumption; constructor; try exact I; assumption. Qed.
+
+Lemma r2_names org its es : renders_doc2 org its es ->
+  Permutation.Permutation (dnames es) (map spell (flat_map il_labels (instrs its)) ++ map spell (map fst (equs its))).
+Proof.
+  induction 1 as [|org l its t k es [Hl _] _ IH|org c k its es _ _ IH|e kw cmt k its es _ _ _ IH|org n e labs kw cmt k its es Hl _ _ _ IH];
+    cbn [dnames instrs equs flat_map map fst]; try exact IH.
+  - constructor.
+  - rewrite Hl, map_app, <- app_assoc. apply Permutation.Permutation_app_head. exact IH.
+  - rewrite Hl. cbn [app]. apply Permutation.Permutation_cons_app. exact IH.
+Qed.
+
+Lemma equ_kw_facts kw : dir_kw_ok kw "equ" ->
+  kw_tok (mkT tokText kw) /\ tok_is_pseudo (mkT tokText kw) = true /\ lower_is kw "end" = false /\ lower_is kw "equ" = true /\ lower_is kw "org" = false.
+Proof.
+  intros Hk. unfold dir_kw_ok in Hk.
+  assert (P : is_pseudo_text kw = true) by (unfold is_pseudo_text; rewrite Hk; reflexivity).
+  split; [split; [reflexivity|unfold tok_is_op, tok_is_pseudo; cbn [t_typ t_val]; rewrite P; rewrite orb_true_r; reflexivity]|].
+  split; [exact P|]. unfold lower_is. rewrite Hk. repeat split; reflexivity.
+Qed.
+
+(* the symbol tables the compiler builds from the lines *)
+Lemma r2_symbols cfg org its es : renders_doc2 org its es ->
+  forall C v tab se cur, (forall n, In n (map fst (equs its)) -> ~ In (spell n) (map fst v)) -> NoDup (map spell (map fst (equs its))) ->
+  fold_left (ls_step cfg) (elines C es) (mkC v tab se, cur) =
+  (mkC (v ++ equ_entries (equs its)) (set_all (spell_pairs spell (lab_pairs C (instrs its))) tab)
+       (match org with Some e => etoks spell e | None => se end),
+   cur + Z.of_nat (length (instrs its))).
+Proof.
+  induction 1 as [|org l its t k es [Hl _] _ IH|org c k its es _ _ IH|e kw cmt k its es Hkw _ _ IH|org n e labs kw cmt k its es Hl Hkw _ _ IH];
+    intros C v tab se cur Hfresh Hnd; cbn [elines fold_left lab_pairs length instrs equs].
+  - unfold set_all, equ_entries. cbn. rewrite Z.add_0_r, app_nil_r. reflexivity.
+  - cbn [ls_step tline_sline sl_typ sl_labels sl_codeline c_values c_labels c_startexpr]. rewrite (IH _ _ _ _ _ Hfresh Hnd).
+    rewrite Hl, (set_labels spell). unfold spell_pairs. rewrite map_app, set_all_app. f_equal. lia.
+  - cbn [ls_step comment_sline sl_typ]. apply IH; assumption.
+  - destruct (dir_kw_facts kw "org" (or_introl eq_refl) Hkw) as [_ [_ [K1 [K2 K3]]]]. cbn in K2, K3.
+    cbn [ls_step dir_sline sl_typ sl_op sl_a c_values c_labels]. rewrite K1, K2. rewrite (IH _ _ _ _ _ Hfresh Hnd). reflexivity.
+  - destruct (equ_kw_facts kw Hkw) as [_ [_ [_ [K2 _]]]].
+    cbn [ls_step ldir_sline sl_typ sl_op sl_a sl_labels c_values c_labels c_startexpr]. rewrite K2, Hl. cbn [fold_left].
+    cbn [map fst] in Hfresh, Hnd. inversion Hnd as [|x y Hx Hy]; subst.
+    rewrite sym_set_fresh by (apply Hfresh; left; reflexivity).
+    rewrite IH.
+    + cbn [equ_entries map fst snd]. rewrite <- app_assoc. reflexivity.
+    + intros n0 Hn0 Hin. rewrite map_app in Hin. apply in_app_or in Hin. destruct Hin as [Hin|[Hin|[]]].
+      * apply (Hfresh n0 (or_intror Hn0) Hin).
+      * cbn [fst] in Hin. apply Hx. rewrite Hin. apply in_map. exact Hn0.
+    + exact Hy.
+Qed.
+End EquDocs.
